@@ -52,3 +52,11 @@ pub(crate) fn set_geom(r: &Region, start: usize, len: usize, reserved: usize) {
 pub(crate) fn call_write_with(r: &Region, data: &[u8], at: Option<usize>, truncate: bool) -> Result<()> {
     r.write_with(data, at, truncate)
 }
+
+impl Region {
+    /// Model-only: metadata without locking.
+    #[allow(clippy::mut_from_ref)]
+    pub(crate) fn meta_mut_peek(&self) -> &mut RegionMetadata {
+        self.0.meta.verif_peek()
+    }
+}
